@@ -104,21 +104,31 @@ def worker(args):
     f = fns[ep]
     agg = {}
     signal.signal(signal.SIGALRM, _alarm)
-    for b in inputs:
+    def call(x):
         signal.setitimer(signal.ITIMER_REAL, 5.0)
         try:
-            f(b)
-            cls = "ok"
+            f(x)
+            return "ok"
         except Timeout:
-            cls = "TIMEOUT"
+            return "TIMEOUT"
         except BaseException as e:  # noqa
-            cls = type(e).__name__
+            return type(e).__name__
         finally:
             signal.setitimer(signal.ITIMER_REAL, 0)
+
+    for bi, b in enumerate(inputs):
+        cls = call(b)
         a = agg.setdefault(cls, [0, b])
         a[0] += 1
         if len(repr(b)) < len(repr(a[1])):
             a[1] = b
+        # the same bytes as other bytes-like objects must give the same outcome class (sampled)
+        if bi % 23 == 0 and isinstance(b, bytes) and not ep.endswith("_pem"):
+            for conv in (bytearray, memoryview):
+                c2 = call(conv(b))
+                if c2 != cls:
+                    a2 = agg.setdefault("%s-for-%s-but-%s-for-bytes" % (c2, conv.__name__, cls), [0, b])
+                    a2[0] += 1
     return ep, cname, {k: (v[0], v[1]) for k, v in agg.items()}
 
 
